@@ -428,7 +428,7 @@ class ClassScope(Scope, Location, Resolvable):
         Scope.__init__(self, parent, top)
         self.name = node.name
         self.declared_at = top.find_id_loc(node.name, np(node))
-        self.location = np(node.body[0])
+        self.location = get_first_body_node_loc(node.body) or np(node.body[0])
         self.flow = self.top.add_flow(Flow('class', self))
         self._bases = node.bases
 
